@@ -40,6 +40,7 @@ class Explorer:
         self.max_paths = 200000
         self.fresh = 0
         self.path_axioms = []  # callables returning extra axioms (e.g. norm axioms) added before checks
+        self.logic, self._alt = None, None  # logic name for non-incremental per-query solvers (None: incremental default)
 
     # ---------------------------------------------------------------- per path
     def _new_path(self):
@@ -85,7 +86,17 @@ class Explorer:
     def check(self, *extra):
         self._sync_axioms()
         t = time.time()
-        r = self.solver.check(*extra)
+        if self.logic is not None:
+            # non-incremental solver for a specific logic (e.g. QF_FP: fpa2bv + bit-blasting + SAT), rebuilt per query
+            s = z3.SolverFor(self.logic)
+            s.set("timeout", TIMEOUT_MS)
+            s.add(*self.solver.assertions())
+            s.add(*extra)
+            r = s.check()
+            self._alt = s
+        else:
+            self._alt = None
+            r = self.solver.check(*extra)
         self.solver_time += time.time() - t
         self.queries[str(r)] = self.queries.get(str(r), 0) + 1
         return r
@@ -97,7 +108,7 @@ class Explorer:
         return r == z3.sat
 
     def model(self):
-        return self.solver.model()
+        return self._alt.model() if getattr(self, "_alt", None) is not None else self.solver.model()
 
     def branch(self, c):
         if not is_sym(c):
